@@ -217,8 +217,65 @@ func SolveAll(all []*Obligation, solv *Solvers) {
 	}()
 	go func() {
 		defer wg2.Done()
-		for k, r := range solv.SolveProbes(ps) {
-			rs[pi[k]] = r
+		// vacuity probes: a name is settled by its first sat/unknown answer; probes are tried in
+		// rounds (later ranks and later paths first), the remaining ones of a settled name are skipped
+		byName := map[string][]int{}
+		var names []string
+		for k, i := range pi {
+			n := todo[i].Name
+			if _, ok := byName[n]; !ok {
+				names = append(names, n)
+			}
+			byName[n] = append(byName[n], k)
+		}
+		for _, n := range names {
+			ks := byName[n]
+			sort.SliceStable(ks, func(a, b int) bool {
+				oa, ob := todo[pi[ks[a]]], todo[pi[ks[b]]]
+				if oa.Rank != ob.Rank {
+					return oa.Rank > ob.Rank
+				}
+				return ks[a] > ks[b]
+			})
+		}
+		settled := map[string]bool{}
+		pos := map[string]int{}
+		for round := 0; ; round++ {
+			var batch []int
+			width := 3
+			if round > 2 {
+				width = 12
+			}
+			for _, n := range names {
+				if settled[n] {
+					continue
+				}
+				ks := byName[n]
+				for c := 0; c < width && pos[n] < len(ks); c++ {
+					batch = append(batch, ks[pos[n]])
+					pos[n]++
+				}
+			}
+			if len(batch) == 0 {
+				break
+			}
+			var q2 []string
+			for _, k := range batch {
+				q2 = append(q2, ps[k])
+			}
+			for j, r := range solv.SolveProbes(q2) {
+				rs[pi[batch[j]]] = r
+				if r.Result != "unsat" {
+					settled[todo[pi[batch[j]]].Name] = true
+				}
+			}
+		}
+		for _, n := range names {
+			if settled[n] {
+				for _, k := range byName[n][pos[n]:] {
+					rs[pi[k]] = solverResult{Result: "skipped", Solver: "-"}
+				}
+			}
 		}
 	}()
 	wg2.Wait()
@@ -273,6 +330,9 @@ func aggregate(obls []*Obligation) []*AggObl {
 		a.Queries++
 		a.Seconds += o.Time
 		if o.Canary {
+			if o.Result == "skipped" {
+				continue
+			}
 			if o.Result == "sat" || o.Result == "unknown" {
 				canarySat[o.Name] = true
 				a.Status = "discharged"
